@@ -196,7 +196,9 @@ CHECKS = {
         "text": "Exact float-level theorems C11_* (coq/Props/C11.v; Flocq, all float inputs): f64::clamp lands in [lo,hi], is idempotent, "
                 "fixes in-range values and panics iff not(lo<=hi); for R^n satisfies_bounds(enforce_bounds(s)) holds and enforce_bounds is "
                 "idempotent; rand's random_range(lo..hi) returns a value in the CLOSED interval [lo,hi] for every u64 (hi attainable by "
-                "rounding); SO(2) normalisation lands in [-PI,PI] for every finite input. Where the property fails on the code the failure is "
+                "rounding); SO(2) normalisation lands in [-PI,PI] for every finite input. Compound spaces of ANY width and nesting "
+                "(coq/Spaces/CompoundN.v, induction over the space tree): enforce->satisfies, sample->satisfies and enforce idempotence lift "
+                "from the components, and are closed for every compound tree of boxes (C11_box_tree_*). Where the property fails on the code the failure is "
                 "a proved witness on the float model and a known finding (SO(2) upper bound PI, upper-end sample, infinite-width bounds) or a "
                 "reproduced known finding (SO(3) projection lands max_angle +- ulp). Bit-exact correspondence of enforce / satisfies / "
                 "sample_uniform (scripted generator, incl. all-ones and all-zeros streams) on the lattice (far outside, on the boundary, "
@@ -223,7 +225,8 @@ CHECKS = {
         "category": "proof",
         "text": "The float model of a compound space IS the documented law (fold of the component models: weighted l2 for distance and "
                 "resolution, component-wise interpolate / sample / enforce / satisfies; SE(2)/SE(3) = compound with weights (1,w)): theorems "
-                "C13_* (coq/Props/C13.v) make the law explicit, prove SE(2)/SE(3) constructors return exactly that compound, and lift the "
+                "C13_* (coq/Props/C13.v) make the law explicit for two components and (C13_*_n, coq/Spaces/CompoundN.v) for any number of "
+                "components and any nesting depth, incl. the single random stream threaded left to right by sample_uniform; they prove SE(2)/SE(3) constructors return exactly that compound, and lift the "
                 "metric / constant-speed / monotonicity properties from the components (real model). That the CODE follows the law is the "
                 "bit-exact correspondence of every operation of CompoundStateSpace / SE2StateSpace / SE3StateSpace on all generated layouts "
                 "(1-4 components from R^n, SO(2), SO(3); weights 0, tiny, 1, large; mismatched layouts must panic) plus a direct oracle that "
